@@ -113,17 +113,65 @@ def _worker(task):
             shutil.rmtree(tmp, ignore_errors=True)
 
 
+def _child(task, conn):
+    try:
+        conn.send(_worker(task))
+    except BaseException as exc:      # noqa: BLE001 - reported to the parent, which decides
+        try:
+            conn.send({'label': task[1], 'applied': True, 'analysis_error': f'{type(exc).__name__}: {exc}', 'new': [], 'errors': [], 'hits': 0,
+                       'instances': 0})
+        except Exception:             # noqa: BLE001
+            pass
+    finally:
+        conn.close()
+
+
 def _run_all(tasks):
+    """Every variant in a process of its own (at most 14 at a time): a process that dies - a crash under analysis-induced
+    recursion, the OOM killer - or hangs is noticed and reported for that variant alone."""
     import multiprocessing
+    import time
     if not tasks:
         return {}
+    ctxm = multiprocessing.get_context('fork')
     jobs = max(1, min(14, (os.cpu_count() or 2) - 1, len(tasks)))
-    if jobs == 1:
-        results = [_worker(t) for t in tasks]
-    else:
-        with multiprocessing.get_context('fork').Pool(jobs) as pool:
-            results = pool.map(_worker, tasks, chunksize=1)
-    return {r['label']: r for r in results}
+    results = {}
+    queue = list(tasks)
+    running = []        # (process, parent_conn, task, started)
+
+    def died(task, why):
+        return {'label': task[1], 'applied': True, 'analysis_error': why, 'new': [], 'errors': [], 'hits': 0, 'instances': 0}
+    while queue or running:
+        while queue and len(running) < jobs:
+            t = queue.pop(0)
+            parent, child = ctxm.Pipe(duplex=False)
+            pr = ctxm.Process(target=_child, args=(t, child), daemon=True)
+            pr.start()
+            child.close()
+            running.append((pr, parent, t, time.time()))
+        still = []
+        for pr, conn, t, t0 in running:
+            if conn.poll(0):
+                try:
+                    r = conn.recv()
+                    results[r['label']] = r
+                except (EOFError, OSError):
+                    results[t[1]] = died(t, 'the process analysing this variant died')
+                pr.join(5)
+                conn.close()
+            elif not pr.is_alive():
+                results[t[1]] = died(t, f'the process analysing this variant died (exit code {pr.exitcode})')
+                conn.close()
+            elif time.time() - t0 > 1800:
+                pr.kill()
+                results[t[1]] = died(t, 'the analysis of this variant did not finish within 30 minutes')
+                conn.close()
+            else:
+                still.append((pr, conn, t, t0))
+        running = still
+        if running:
+            time.sleep(0.05)
+    return results
 
 
 def validate(prop, propmod, analysis):
